@@ -57,7 +57,14 @@ type CompleteMultipartUploadRequest struct {
 }
 
 func (c CompleteMultipartUploadRequest) partsAreSorted() bool {
-	return sort.IntsAreSorted(c.partIDs())
+	// partIDs returns a sorted copy, so the order has to be checked on the
+	// parts as they were sent:
+	for i := 1; i < len(c.Parts); i++ {
+		if c.Parts[i].PartNumber < c.Parts[i-1].PartNumber {
+			return false
+		}
+	}
+	return true
 }
 
 func (c CompleteMultipartUploadRequest) partIDs() []int {
